@@ -199,7 +199,7 @@ package repository
 //@   modifies detectedGitDir
 //@   ensures result1 == nil ==> detectedGitDir == result
 //@ func OpenGoGitRepo
-//@   props C05 C15
+//@   props C05 C15 C06
 //@   opt storage
 //@   stable detectedGitDir
 //@   check [incomplete-loader-is-run] err == nil ==> (forall k int :: { clockLoaders[k] } 0 <= k && k < len(clockLoaders) && (exists j int :: { clockLoaders[k].Clocks[j] } 0 <= j && j < len(clockLoaders[k].Clocks) && !clockExists(clockLoaders[k].Clocks[j])) ==> (exists i int :: { loaderToRun[i] } 0 <= i && i < len(loaderToRun) && loaderToRun[i] == clockLoaders[k]))
